@@ -2,6 +2,7 @@ import Model.Prg
 import Proofs.Prg
 import Proofs.Uniform
 import Proofs.FisherYates
+import Proofs.FisherYatesSurj
 
 /-! # C15 — sampling helpers are in range, valid and exactly uniform in the PRG's bits
 
@@ -274,6 +275,24 @@ theorem permutation_choices_injective (n : Nat) (js js' : List Nat) (hl : js.len
   (run_inj n js js' 0 _ _ (by omega) hv hv' (by omega) (inv_init n) (inv_init n) h).1
 
 open Proofs.FisherYates in
+/-- **every permutation is the outcome of exactly one choice vector**: for every arrangement `p` of `0..n-1` there is
+    one and only one vector of draws `j_0 ≤ 0, j_1 ≤ 1, …, j_{n-1} ≤ n-1` on which the loop of `Permutation` returns
+    `p` (`Proofs/FisherYatesSurj.lean`: the last step can be undone - the position of the value `i` is the draw - and
+    the state before it still satisfies the loop invariant). The `n!` outcomes are therefore in one-to-one
+    correspondence with the `n!` draw vectors; with each draw `UintN(i+1)` uniform in the bytes it consumes
+    (`uintN_attempt_uniform`, `uintNLoop_first_accept`) and consuming bytes of its own, all outcomes are equally likely -/
+theorem permutation_every_outcome_once (n : Nat) (p : List Nat) (hp : p.Perm (List.range n)) :
+    ∃ js, (js.length = n ∧ Valid js 0 ∧ run js 0 (List.replicate n 0) = p) ∧
+      ∀ js', js'.length = n → Valid js' 0 → run js' 0 (List.replicate n 0) = p → js' = js :=
+  permutation_bijective n p hp
+
+open Proofs.FisherYates in
+/-- non-vacuity: the arrangement `[2, 0, 3, 1]` is reached (by the draws `0, 0, 0, 2`) -/
+example : run [0, 0, 0, 2] 0 (List.replicate 4 0) = [2, 0, 3, 1] ∧ Valid [0, 0, 0, 2] 0 := by
+  refine ⟨by decide, ?_⟩
+  simp [Valid]
+
+open Proofs.FisherYates in
 /-- the loop of `Samples` reports the swaps `(i, i + j_i)` of a valid choice vector, in order -/
 theorem samplesLoop_choices (fuel n : Nat) : ∀ (k i : Nat) (s s' : State) (sw : List (Nat × Nat)),
     i + k ≤ n → samplesLoop blk fuel n k i s = some (s', sw) →
@@ -359,3 +378,4 @@ end Props.C15
 #print axioms Props.C15.permutation_choices_injective
 #print axioms Props.C15.samplesLoop_choices
 #print axioms Props.C15.samples_choices_injective
+#print axioms Props.C15.permutation_every_outcome_once
